@@ -132,7 +132,7 @@ def finish(mod, modname, pid, tier, seed, repo, t0, results, skipped, heavy, n_j
             if ans["exception"]:
                 mism.append((r["key"], "exception in concrete run: " + str(ans["exception"]) + " " + str(ans.get("message"))))
                 continue
-            bad = compare_outputs(x["predicted"]["outputs"], ans["outputs"])
+            bad = compare_outputs(x["predicted"]["outputs"], ans["outputs"], ignore=getattr(mod, "XCHECK_IGNORE", ()))
             if bad:
                 mism.append((r["key"], bad[:3]))
             else:
@@ -249,10 +249,10 @@ def signature(mod, pid, params, v):
     return f"{pid}/{fam}"
 
 
-def compare_outputs(pred, got, tol=1e-7):
+def compare_outputs(pred, got, tol=1e-7, ignore=()):
     bad = []
     for k, pv in pred.items():
-        if pv == "?":
+        if pv == "?" or any(k.startswith(p) for p in ignore):
             continue
         if k not in got:
             bad.append((k, pv, "<missing>"))
